@@ -552,6 +552,19 @@ func runC08(tier string, seed uint64) int {
 				c.focus[0] = wn
 			}
 		}
+		if i%7 == 5 {
+			// namespaces whose names begin with a digit: as text they fall between the address ranges
+			m := map[string]string{"alpha": "3scale", "gamma": "1pw"}
+			c.docs, c.docs2 = renameNamespaces(c.docs, m), renameNamespaces(c.docs2, m)
+			for k := range c.focus {
+				c.focus[k] = renameWords(c.focus[k], m)
+			}
+			for k := range c.evalQ {
+				for x := range c.evalQ[k] {
+					c.evalQ[k][x] = renameWords(c.evalQ[k][x], m)
+				}
+			}
+		}
 		cases = append(cases, c)
 	}
 
